@@ -6,7 +6,7 @@ CONSTANTS
   Pats = {"bal", "unb"}
   Mods = {"none"}
   VGs = {"Dyn", "YNyn", "Yzn"}
-  Topos = {"radial", "ring", "cut"}
+  Topos = {"radial", "cut"}
 INVARIANT M_TotalsAgree
 INVARIANT M_SymmetricImpliesBalanced
 INVARIANT M_BalancedThird
